@@ -18,6 +18,7 @@ import (
 	"context"
 	"io"
 	"io/ioutil"
+	"math"
 	"math/rand"
 	"net"
 	"net/http"
@@ -139,7 +140,12 @@ func (h *Handler) ServeHTTP(response http.ResponseWriter, request *http.Request)
 			return
 		}
 	}
-	data, err := readAll(io.LimitReader(request.Body, int64(h.Service.MaxRequestLength)+1), request.ContentLength)
+	// one byte beyond the limit shows that the body is too long
+	limit := int64(h.Service.MaxRequestLength)
+	if limit < math.MaxInt64 {
+		limit++
+	}
+	data, err := readAll(io.LimitReader(request.Body, limit), request.ContentLength)
 	if err != nil {
 		// a body shorter than its Content-Length: data is padded with zeros,
 		// it is not what the client sent and must not reach the service
